@@ -84,12 +84,17 @@ def arma_task(datatype, small_P):
                 seen["Y"] = y.copy()
                 keys = dom.key_terms([y, order])
                 a = dom.opaque_array("covsolve_a", keys, order, "complex")
+                seen["forward"] = a
                 if which == "marple":
-                    # the real routine returns its work array (length len(y)), coefficients first
+                    # the real routine returns its work arrays (length len(y)), coefficients first: FORWARD predictor at index 0,
+                    # BACKWARD predictor at index 2 -- two different vectors (C14: the forward one is the least-squares solution)
                     s = a.snap()
                     zero = Cx(Fraction(0), Fraction(0))
                     af = Arr(y.n, fn=lambda i: V.s_ite(V.s_cmp("<", i, order), s(i), zero), dtype="complex")
-                    return (af, dom.opaque_real("covsolve_pf", keys), af, dom.opaque_real("covsolve_pb", keys), [])
+                    b = dom.opaque_array("covsolve_ab", keys, order, "complex")
+                    sb = b.snap()
+                    ab = Arr(y.n, fn=lambda i: V.s_ite(V.s_cmp("<", i, order), sb(i), zero), dtype="complex")
+                    return (af, dom.opaque_real("covsolve_pf", keys), ab, dom.opaque_real("covsolve_pb", keys), [])
                 return (a, dom.opaque_real("covsolve_e", keys))
             return f
 
@@ -134,6 +139,10 @@ def arma_task(datatype, small_P):
             ar, ma_, rho = P.value
             P.prove("returns-P-AR-coefficients", V.s_eq(ar.n, P_), replay=("arma", hints))
             P.prove("returns-Q-MA-coefficients", V.s_eq(ma_.n, Q), replay=("arma", hints))
+            if "forward" in seen:
+                j_ = P.skolem("ja", 0, P_)
+                P.prove("AR-part=forward-least-squares-solution-of-the-modified-YW-system",
+                        V.s_eq(V.Cx.of(ar.at(j_)), V.Cx.of(seen["forward"].at(j_))), replay=("arma", hints))
             if seen.get("solver") != ("marple" if small_P else "lstsq"):
                 P.fail("solver-switch", "P %s 4 used solver %r" % ("<=" if small_P else ">", seen.get("solver")), replay=("arma", hints))
             else:
